@@ -401,8 +401,12 @@ def c20(tier):
     # concatenation: line 2 after line 1 == line 2 alone (first lines chosen to leave the parser through every exit)
     # quick: pinned table, over-long implicit-write first line (the exit that skips the normal end of argument parsing)
     jobs.append(twin_job("C20", 3, "AT+3aaaaaaLAT+kL", cap=(12, 12)))
-    jobs[-1].defines["PIN_TABLE"] = None
+    jobs[-1].defines["PIN_TABLE"] = 1
     jobs[-1].name += ".pinned"
+    # quick: write syntax on a (possibly) test-only command, then another line
+    jobs.append(twin_job("C20", 3, "AT+k=aLAT+kL", cap=(12, 12)))
+    jobs[-1].defines["PIN_TABLE"] = 2
+    jobs[-1].name += ".pinned_testonly"
     m3 = [("gxLAT+k?L", (12, 16))]
     if tier == "thorough":
         m3 += [("AT+kaaaaaaLAT+kL", (12, 12)), ("AT+k=aLAT+k?L", (12, 16)), ("AT+k?LAT+k=aL", (12, 16)), ("AT+kgLAT+kL", (12, 16)), ("AT+k=?xLAT+kL", (12, 16)), ("AT+kaaaaaaaLAT+k=aL", (12, 12))]
